@@ -166,37 +166,50 @@ func (sc *RevScenario) buildViews(obs *RevObs, co *CallObs) []*CertView {
 			frs := fetchByURL[s.URL]
 			switch {
 			case len(frs) > 0:
-				fr := frs[0]
 				sv.Contacted = true
-				sv.TBegin = fr.TBegin
-				switch {
-				case !fr.Done:
-					sv.Alts = []string{ClNone}
-				case fr.Err != "":
-					sv.Alts = []string{ClNone}
-				default:
-					base, delta := reg[fr.Base], (*CRLSpec)(nil)
-					if fr.Delta != "" {
-						delta = reg[fr.Delta]
-						if delta == nil {
-							sv.Vacuous = true
-						}
-					}
-					if base == nil {
-						sv.Vacuous = true
-					}
-					if !sv.Vacuous && len(origins[base.Hash]) > 0 && !origins[base.Hash][s.URL] {
-						// provenance: evidence for this distribution point must have
-						// been obtained from it (now, or earlier and kept under its
-						// URL), not from another URL that merely looks similar
+				sv.TBegin = frs[0].TBegin
+				// a distribution point asked more than once within the check
+				// (a retry) may be judged by any of its answers
+				var union []string
+				for _, fr := range frs {
+					sv.Alts = nil
+					switch {
+					case !fr.Done:
 						sv.Alts = []string{ClNone}
-						sv.Desc += " [delivered bundle was obtained from " + base.Origin + ", not from this distribution point]"
-					} else if !sv.Vacuous {
-						sv.Alts = crlAlts(base, delta, cp.Serial, cp.Freshest, hasCRLSign, w.HasST, w.ST, fr.TEnd)
-						if sv.Alts == nil {
+					case fr.Err != "":
+						sv.Alts = []string{ClNone}
+					default:
+						base, delta := reg[fr.Base], (*CRLSpec)(nil)
+						if fr.Delta != "" {
+							delta = reg[fr.Delta]
+							if delta == nil {
+								sv.Vacuous = true
+							}
+						}
+						if base == nil {
 							sv.Vacuous = true
 						}
+						if !sv.Vacuous && len(origins[base.Hash]) > 0 && !origins[base.Hash][s.URL] {
+							// provenance: evidence for this distribution point must have
+							// been obtained from it (now, or earlier and kept under its
+							// URL), not from another URL that merely looks similar
+							sv.Alts = []string{ClNone}
+							sv.Desc += " [delivered bundle was obtained from " + base.Origin + ", not from this distribution point]"
+						} else if !sv.Vacuous {
+							sv.Alts = crlAlts(base, delta, cp.Serial, cp.Freshest, hasCRLSign, w.HasST, w.ST, fr.TEnd)
+							if sv.Alts == nil {
+								sv.Vacuous = true
+							}
+						}
 					}
+					for _, a := range sv.Alts {
+						if !containsStr(union, a) {
+							union = append(union, a)
+						}
+					}
+				}
+				if !sv.Vacuous {
+					sv.Alts = union
 				}
 			case w.Entry == EValidate:
 				// no decorator: derive the delivered bundle from the exchanges
